@@ -18,7 +18,10 @@ MSGS = ['{"text":"You are banned"}', 'plain not json', '{"text":"Outdated client
         '{"text":"Outdated server! I\'m still on 1.8.9"}', 'Outdated client! Please use 1.12.2',
         '{"text":"Outdated client! Please use 1.16 .4"}', '{"translate":"x"}', '{"text":""}',
         '"just a string"', '{"text":"Outdated server! I\'m still on "}', '[1,2]',
-        '{"text":"Server closed","extra":[]}', '{"text":5}', '{"text":null}']
+        '{"text":"Server closed","extra":[]}', '{"text":5}', '{"text":null}',
+        # version names the library has never heard of
+        '{"text":"Outdated client! Please use 1.20.1"}', "Outdated server! I'm still on 1.7.10-Forge",
+        '{"text":"Outdated client! Please use 23w31a"}']
 
 
 def hh(b):
